@@ -84,6 +84,7 @@ def main(jobs, out, shard, nshards):
             except Exception as e:
                 continue        # not a rendering matter (C09)
             renders = []
+            live = []
             for fmt in registry:
                 # every boolean option the format's writer declares, flipped one at a time (polish notation only)
                 flips = [('polish', {k: not v}) for k, v in sorted(dict(registry[fmt].defaults).items()) if isinstance(v, bool)]
@@ -102,9 +103,18 @@ def main(jobs, out, shard, nshards):
                             lines = o1.split('\n')
                             r['paths'] = paths(parse_struct(lines, 0, len(lines) - 1, 0))
                             lw = w.lw
+                        live.append((r, w, o1))
                     except Exception as e:
                         r['raised'] = f'{type(e).__name__}: {e}'[:200]
                     renders.append(r)
+            # history: every writer of this tableau is still alive and renders once more AFTER the writers of the other
+            # notations / options / formats were used (order A, B, ..., A): "rendering twice gives identical text"
+            for r, w, o1 in live:
+                try:
+                    if w(tab) != o1:
+                        r['same'] = 0
+                except Exception as e:
+                    r['raised'] = f'{type(e).__name__}: {e}'[:200]
             recs = []
             base = TabWriter('text', 'standard').lw
             for notn, wopts in (('polish', {}), ('standard', {}), ('standard', {'drop_parens': False}), ('standard', {'identity_infix': False})):
